@@ -154,6 +154,71 @@ Fixpoint tiles (start : nat) (m : list block) (n : nat) : Prop :=
 Definition sorted_version {A : Type} (t st : list (Z * A)) : Prop :=
   Permutation t st /\ StronglySorted Z.le (map fst st).
 
+(* ---------------------------------------------------------------- histories of one Database object
+   A table row carries several identifier columns (persons, households, ...) and a payload.  The state of
+   a Database: the table, the declared panel column (None = not panel), the stored individualMap and the
+   number of rows of the stored draws table.  Operations:
+     OpPanel c   Database.panel(column c): checks contiguity first; refused (BiogemeError) => state unchanged;
+                 accepted => panelColumn := c, build_panel_map (sorts the table, stores the map)
+     OpEdit t    the user assigns / edits database.data directly: the table changes, the stored map and the
+                 draws are left as they are (STALE)
+     OpRemove k  Database.remove: rows dropped, and the map rebuilt when the data are panel
+     OpDraws     Database.generate_draws: rebuilds the map, then one series per individual
+   An evaluation (one-expression calculator, BIOGEME constructor / simulate) starts with [prepare_eval]:
+   the map is rebuilt from the CURRENT table and column before the data, the map and the draws are sent. *)
+Section History.
+  Context {A : Type}.
+  Definition hrow : Type := (list Z * A)%type.
+  Definition hkey (c : nat) (r : hrow) : Z := nth c (fst r) 0.
+  Definition col_ids (c : nat) (t : list hrow) : list Z := map (hkey c) t.
+
+  Record pstate : Type := mk_pstate {
+    st_table : list hrow; st_col : option nat; st_map : list block; st_draws : nat }.
+
+  Inductive pop : Type :=
+  | OpPanel (c : nat)
+  | OpEdit (t : list hrow)
+  | OpRemove (keep : hrow -> bool)
+  | OpDraws.
+
+  Definition rebuild (s : pstate) : pstate :=
+    match st_col s with
+    | None => s
+    | Some c => mk_pstate (sort_by (hkey c) (st_table s)) (Some c)
+                          (build_map (col_ids c (st_table s))) (st_draws s)
+    end.
+
+  Definition gen_draws (s : pstate) : pstate :=
+    let s' := rebuild s in
+    mk_pstate (st_table s') (st_col s') (st_map s')
+              (match st_col s' with Some _ => List.length (st_map s') | None => List.length (st_table s') end).
+
+  Definition panel_accepts (s : pstate) (c : nat) : bool := panel_ok (col_ids c (st_table s)).
+
+  Definition step (s : pstate) (o : pop) : pstate :=
+    match o with
+    | OpPanel c =>
+        if panel_accepts s c
+        then rebuild (mk_pstate (st_table s) (Some c) (st_map s) (st_draws s))
+        else s
+    | OpEdit t => mk_pstate t (st_col s) (st_map s) (st_draws s)
+    | OpRemove keep => rebuild (mk_pstate (filter keep (st_table s)) (st_col s) (st_map s) (st_draws s))
+    | OpDraws => gen_draws s
+    end.
+
+  (* the history, with the verdict of every declaration (true for the other operations) *)
+  Fixpoint run_ops (s : pstate) (ops : list pop) : pstate * list bool :=
+    match ops with
+    | [] => (s, [])
+    | o :: tl =>
+        let ok := match o with OpPanel c => panel_accepts s c | _ => true end in
+        let '(s', l) := run_ops (step s o) tl in (s', ok :: l)
+    end.
+
+  Definition prepare_eval (s : pstate) : pstate := gen_draws s.
+  Definition fresh (t : list hrow) : pstate := mk_pstate t None [] O.
+End History.
+
 (* ---------------------------------------------------------------- instances *)
 From Coq Require Import Reals QArith Qabs.
 Open Scope Z_scope.
